@@ -587,3 +587,70 @@ def py_json_parse(text):
     obj = _json.loads(text.decode("latin-1"), parse_constant=bad_const, parse_float=lambda s: ("Q", lit_value(s), sig_digits(s)),
                       object_pairs_hook=lambda ps: [("__pairs__", ps)])
     return conv(obj)
+
+
+def parse_term(s):
+    """term syntax (with L nodes and l-prefixed keys) -> tree"""
+    pos = 0
+
+    def hexrun():
+        nonlocal pos
+        st = pos
+        while pos < len(s) and s[pos] in "0123456789abcdef":
+            pos += 1
+        return bytes.fromhex(s[st:pos])
+
+    def val():
+        nonlocal pos
+        c = s[pos]
+        pos += 1
+        if c == "N":
+            return ("N",)
+        if c in "TF":
+            return ("B", c == "T")
+        if c in "UI":
+            st = pos
+            if s[pos:pos + 1] == "-":
+                pos += 1
+            while pos < len(s) and s[pos].isdigit():
+                pos += 1
+            return (c, int(s[st:pos]))
+        if c == "f":
+            pos += 8
+            return ("f", int(s[pos - 8:pos], 16))
+        if c == "d":
+            pos += 16
+            return ("d", int(s[pos - 16:pos], 16))
+        if c in "SLR":
+            return (c, hexrun())
+        if c == "[":
+            xs = []
+            if s[pos] == "]":
+                pos += 1
+                return ("A", xs)
+            while True:
+                xs.append(val())
+                if s[pos] == ",":
+                    pos += 1
+                    continue
+                pos += 1
+                return ("A", xs)
+        if c == "{":
+            ms = []
+            if s[pos] == "}":
+                pos += 1
+                return ("O", ms)
+            while True:
+                linked = s[pos] == "l"
+                if linked:
+                    pos += 1
+                k = hexrun()
+                pos += 1
+                ms.append((k, val(), linked))
+                if s[pos] == ",":
+                    pos += 1
+                    continue
+                pos += 1
+                return ("O", ms)
+        raise ValueError(s)
+    return val()
